@@ -9,11 +9,13 @@
   (`encSegment`: cut the stream of usable bytes into pages; `encSegmentOp`: copy records page by page): same
   bytes, same record positions and classes — tag `layout=agree`; a disagreement turns the expected text into
   `LAYOUT-MISMATCH`, i.e. a reported violation.  (The equality is also proved: Props/C17.lean `C17_encoders_agree`.)
-  Names in the expected (SPEC) text: PostgreSQL's name where it defines one (version 16 table; the generators
-  use the magics of 15/16 only) — except that a numeric placeholder printed by the tool for an operation it has
-  no name for is accepted (it declines to name, it does not misname); where PostgreSQL defines no name the
-  spec is silent and the expected text repeats the model's.  Resource-manager names are compared after
-  `normRm` on both sides.
+  Names in the expected (SPEC) text: exactly PostgreSQL's name wherever it defines one — resource managers 0..21
+  (rmgrlist.h spelling) and the opcode tables of the segment's version (`Spec.Wal.pgOpName ver`, ver from the
+  page magic: all of 12..16 are generated); where PostgreSQL defines no name the spec is silent and the expected
+  text repeats the model's.  No normalisation on either side.
+  Open findings and their classes (tags): `kf:C17-btree-rmname` (a Btree record: "BTree" printed for "Btree"),
+  `kf:C17-prepared-xid` (waldir: a commit/abort record that decides a transaction other than its header's),
+  `kf:C17-cross-segment-record` (waldir: a segment file ends inside a record that the next file continues).
 -/
 import Driver.Family
 import PgVerif.Model.Wal
@@ -23,8 +25,6 @@ import PgVerif.Gen.Wal
 import PgVerif.Gen.Mutate
 namespace Driver.Fam.Wal
 open PgVerif Driver
-
-def pgVer : Nat := 16
 
 /-! ### canonical text -/
 
@@ -40,7 +40,7 @@ def showBlockM (b : Model.Wal.BlockRef) : String := s!"{b.id}.{b.forkNum}.{b.fla
 def showBlockS (b : Spec.Wal.BlockView) : String := s!"{b.id}.{b.fork}.{b.flags}.{showRelS b.rel}.{b.blkno}"
 
 def showRecM (r : Model.Wal.Record) : String :=
-  s!"{r.lsn}:{r.totalLen}:{r.xid}:{r.prev}:{r.info}:{r.rmid}:{r.crc}:{Spec.Wal.normRm r.rmName}:{r.operation}:" ++
+  s!"{r.lsn}:{r.totalLen}:{r.xid}:{r.prev}:{r.info}:{r.rmid}:{r.crc}:{r.rmName}:{r.operation}:" ++
     joinWith "," (r.blocks.map showBlockM)
 
 def showRecsM (rs : List Model.Wal.Record) : String := joinWith ";" (rs.map showRecM)
@@ -49,22 +49,28 @@ def showFileM : Option (List Model.Wal.Record) → String
   | none => "err"
   | some rs => showRecsM rs
 
+/-- PostgreSQL's name of the resource manager; ids it does not define: spec silent, the model's text is repeated -/
 def specRmName (rmid : Nat) : String :=
   match Spec.Wal.pgRmgrName rmid with
-  | some n => Spec.Wal.normRm n
-  | none => Spec.Wal.normRm (Model.Wal.rmgrName rmid)
+  | some n => n
+  | none => Model.Wal.rmgrName rmid
 
-def specOpName (rmid info : Nat) : String :=
-  let m := Model.Wal.operationName rmid info
-  match Spec.Wal.pgOpName pgVer rmid info with
-  | some n => if m == Model.Wal.defaultOpName info then m else n
-  | none => m
+/-- the PostgreSQL version of a page magic (the generators use the five magics of the Spec's table) -/
+def verOf (magic : Nat) : Nat := (Spec.Wal.versionOfMagic magic).getD 16
 
-def showRecS (v : Spec.Wal.RecView) : String :=
-  s!"{v.lsn}:{v.totLen}:{v.xid}:{v.prev}:{v.info}:{v.rmid}:{v.crc}:{specRmName v.rmid}:{specOpName v.rmid v.info}:" ++
+/-- PostgreSQL `ver`'s name of the operation; where it defines none: spec silent, the model's text is repeated -/
+def specOpName (magic rmid info : Nat) : String :=
+  match Spec.Wal.pgOpName (verOf magic) rmid info with
+  | some n => n
+  | none => Model.Wal.operationNameFor rmid info magic
+
+def showRecS (magic : Nat) (v : Spec.Wal.RecView) : String :=
+  s!"{v.lsn}:{v.totLen}:{v.xid}:{v.prev}:{v.info}:{v.rmid}:{v.crc}:{specRmName v.rmid}:{specOpName magic v.rmid v.info}:" ++
     joinWith "," (v.blocks.map showBlockS)
 
-def showRecsS (vs : List Spec.Wal.RecView) : String := joinWith ";" (vs.map showRecS)
+def showRecsS (magic : Nat) (vs : List Spec.Wal.RecView) : String := joinWith ";" (vs.map (showRecS magic))
+
+def showSegS (s : Spec.Wal.WalSegment) : String := showRecsS s.magic s.view
 
 /-! ### known-finding classes, decided on the abstract value -/
 
@@ -78,16 +84,30 @@ def hasXpageBlocks (s : WalSegment) : Bool :=
   (s.records.zip s.offsets).any fun ro => headerOnOnePage ro.2 && !recordOnOnePage ro.2 ro.1.totLen && !ro.1.blocks.isEmpty
 
 open Spec.Wal in
-/-- a Database record whose operation the tool names with the PostgreSQL ≤ 14 vocabulary (A55) -/
+/-- a Database record with one of the opcodes renumbered in PostgreSQL 15 (former finding C17-dbase-ops, repaired by
+fixes/wal/07) -/
 def hasDbaseOp (s : WalSegment) : Bool :=
   s.records.any fun r => r.rmid == 4 && (r.info &&& 0xF0 == 0x00 || r.info &&& 0xF0 == 0x10)
 
-/-- `hasStraddle` / `hasXpageBlocks` were the classes of the findings C17-straddling-header / C17-crosspage-blocks
-(repaired by fixes/wal/04, 05): now plain coverage labels -/
+open Spec.Wal in
+/-- a Btree record: the tool prints the resource manager as "BTree", PostgreSQL as "Btree" (open finding C17-btree-rmname) -/
+def hasBtree (s : WalSegment) : Bool := s.records.any fun r => r.rmid == 11
+
+open Spec.Wal in
+/-- a commit / abort record that decides a transaction other than the one of its header: the end of a prepared
+transaction, or subtransactions (open finding C17-prepared-xid; observable in the directory summary only) -/
+def decidesOther (r : WalRecord) : Bool :=
+  (xactStatus r.rmid r.info).isSome && (decidedXids r).filter (· != 0) != (if r.xid == 0 then [] else [r.xid])
+
+def hasDecidesOther (s : Spec.Wal.WalSegment) : Bool := s.records.any fun r => r.rmid == 1 && decidesOther r
+
+/-- `hasStraddle` / `hasXpageBlocks` / `hasDbaseOp` were the classes of the findings C17-straddling-header /
+C17-crosspage-blocks / C17-dbase-ops (repaired by fixes/wal/04, 05, 07): now plain coverage labels -/
 def kfTags (s : Spec.Wal.WalSegment) : List String :=
   (if hasStraddle s then ["hdr-straddles"] else []) ++
   (if hasXpageBlocks s then ["xpage-blocks"] else []) ++
-  (if hasDbaseOp s then ["kf:C17-dbase-ops"] else [])
+  (if hasDbaseOp s then ["dbase-ops"] else []) ++
+  (if hasBtree s then ["kf:C17-btree-rmname"] else [])
 
 /-! ### walseg -/
 
@@ -112,6 +132,15 @@ def plainRec (n : Nat) (rmid info xid : Nat) : WalRecord :=
 open Spec.Wal in
 def blk (id : Nat) (rel : Option RelFileNode) (image : Option Image) (data : Option Bytes) (blkno : Nat) : BlockRef :=
   { id, fork := 0, willInit := false, image, data, rel, blkno }
+
+open Spec.Wal in
+/-- a heap record with one block reference carrying a full-page image with the given bimg_info / hole_length -/
+def fpiRec (bimg : Nat) (hole : Option Nat) : WalRecord :=
+  { xid := 700, prev := 40, info := 0x00, rmid := 10, crc := 1,
+    blocks := [blk 0 (some ⟨1663, 5, 16384⟩) (some { data := [9, 9, 9, 9], holeOffset := 24, bimgInfo := bimg, holeLength := hole })
+                 (some [1, 2, 3]) 7,
+               blk 1 none none none 8],
+    origin := none, topXid := none, mainData := [5, 5, 5] }
 
 open Spec.Wal in
 /-- deterministic boundary segments -/
@@ -156,7 +185,22 @@ def boundarySegs : List WalSegment :=
     mkSeg [] [{ plainRec 40 4 0x00 700 with xid := 9 }, plainRec 40 4 0x10 9],
     -- the same two classes with a compact image (zero continuation data in front): witnesses of the former findings
     mkSeg (zeros 8136) [plainRec 40 10 0x10 700, plainRec 40 1 0x00 700],
-    mkSeg (zeros 8100) [heapIns, plainRec 40 1 0x00 700] ]
+    mkSeg (zeros 8100) [heapIns, plainRec 40 1 0x00 700],
+    -- the five versions (fixes/wal/06: 12, 13 were rejected, 14 labelled "13"): the ordinary full-page image with a hole
+    -- (bimg_info 0x05 on ≤ 14, 0x03 on ≥ 15, no hole_length) and the same byte under the other assignment (hole_length
+    -- present); the opcodes whose names depend on the version (fixes/wal/07) or were missing (fixes/wal/08)
+    { mkSeg [] [fpiRec 0x05 none, fpiRec 0x03 (some 8000), plainRec 40 9 0x10 700, plainRec 40 9 0x20 700, plainRec 40 9 0x30 700,
+                plainRec 40 4 0x10 700, plainRec 40 0 0xB0 0, plainRec 40 8 0x10 0, plainRec 40 1 0x00 700] with magic := 0xD101 },
+    { mkSeg [] [fpiRec 0x05 none, fpiRec 0x07 (some 100), plainRec 40 9 0x10 700, plainRec 40 9 0x30 700, plainRec 40 14 0x70 700,
+                plainRec 40 13 0x90 700, plainRec 40 1 0x20 700] with magic := 0xD106 },
+    { mkSeg [] [fpiRec 0x05 none, fpiRec 0x11 none, plainRec 40 9 0x10 700, plainRec 40 9 0x20 700, plainRec 40 4 0x00 700,
+                plainRec 40 4 0x10 700, plainRec 40 1 0x60 700, plainRec 40 1 0x00 700] with magic := 0xD10D },
+    { mkSeg [] [fpiRec 0x03 none, fpiRec 0x05 (some 8000), fpiRec 0x11 (some 1), plainRec 40 4 0x00 700, plainRec 40 4 0x10 700,
+                plainRec 40 4 0x20 700, plainRec 40 17 0x90 700, plainRec 40 20 0x50 700, plainRec 40 1 0x00 700] with magic := 0xD110 },
+    mkSeg [] [fpiRec 0x03 none, fpiRec 0x0B (some 8000), plainRec 40 2 0x90 700, plainRec 40 16 0x80 700, plainRec 40 21 0x00 700,
+              plainRec 40 19 0x10 700, plainRec 40 18 0x20 700, plainRec 40 1 0x00 700],
+    -- a Btree record: open finding C17-btree-rmname
+    mkSeg [] [plainRec 40 11 0x00 700, plainRec 40 11 0xB0 700, plainRec 40 1 0x00 700] ]
 
 def pagesTag (n : Nat) : String :=
   if n ≤ 1 then "pages=1" else if n ≤ 2 then "pages=2" else if n ≤ 4 then "pages=3-4" else if n ≤ 8 then "pages=5-8"
@@ -169,7 +213,8 @@ def segTags (s : WalSegment) : List String :=
   let exact := ro.any fun x => (locate x.2).2 + align8 x.1.totLen == 8192
   let skip := ro.any fun x => (locate x.2).2 + x.1.totLen > 8192 + capN
   let nblk := (s.records.map (·.blocks.length)).sum
-  [pagesTag (s.usedPages + s.tailPages),
+  let fpi := if pre15 s.magic then 0x05 else 0x03
+  [pagesTag (s.usedPages + s.tailPages), s!"pg={(versionOfMagic s.magic).getD 0}",
    (if s.records.length == 0 then "recs=0" else if s.records.length < 10 then "recs<10" else if s.records.length < 100 then "recs<100" else "recs>=100"),
    (if nblk == 0 then "blocks=0" else "blocks>0")] ++
   (if cross then ["crosspage"] else []) ++ (if exact then ["ends-at-page-end"] else []) ++
@@ -177,6 +222,8 @@ def segTags (s : WalSegment) : List String :=
   (if s.startAddr == 0 then ["addr=0"] else []) ++
   (if s.records.any (fun r => r.mainData.length > 255) then ["main=long"] else []) ++
   (if s.records.any (fun r => r.blocks.any (·.image.isSome)) then ["image"] else []) ++
+  (if s.records.any (fun r => r.blocks.any fun b => b.image.any (·.bimgInfo == fpi)) then ["image=hole-uncompressed"] else []) ++
+  (if s.records.any (fun r => r.blocks.any fun b => b.image.any (·.holeLength.isSome)) then ["image=hole-length"] else []) ++
   (if s.records.any (fun r => r.blocks.any (·.rel.isNone)) then ["samerel"] else [])
 
 open Spec.Wal in
@@ -201,33 +248,36 @@ def walsegGen (seed idx size : Nat) : Case :=
   let agree := layoutAgrees s file
   let tags := segTags s ++ kfTags s ++ [if agree then "layout=agree" else "layout=MISMATCH"] ++
     (if s.records.isEmpty then [] else ["nt"])
-  { tags, model := showM showFileM model, spec := if agree then showRecsS s.view else "LAYOUT-MISMATCH",
+  { tags, model := showM showFileM model, spec := if agree then showSegS s else "LAYOUT-MISMATCH",
     args := [hexRle file] }
 
 def walseg : Family := { name := "walseg", gen := walsegGen, eval := walsegEval, fixed := boundarySegs.length }
 
-/-! ### walnames: all (rmid, info) pairs -/
+/-! ### walnames: all (version, rmid, info) triples -/
 
 def showNamesM : Option (List Model.Wal.Record) → String
   | none => "err"
-  | some rs => joinWith "," (rs.map fun r => s!"{r.rmid}.{r.info}={Spec.Wal.normRm r.rmName}/{r.operation}")
+  | some rs => joinWith "," (rs.map fun r => s!"{r.rmid}.{r.info}={r.rmName}/{r.operation}")
 
 def walnamesEval (args : List String) : String :=
   match args with
   | [file] => showM showNamesM (Model.Wal.parseWALFile (unhex file))
   | _ => "bad-args"
 
-/-- case `idx` = resource manager `idx % 256`: one page holding 256 records, info = 0..255 -/
+/-- case `idx` = PostgreSQL version 12 + `idx / 256` (mod 5), resource manager `idx % 256`: one page of that version
+holding 256 records, info = 0..255 -/
 def walnamesGen (_seed idx _size : Nat) : Case :=
   let rmid := idx % 256
-  let s := mkSeg [] ((List.range 256).map fun info => { plainRec 24 rmid info 0 with prev := 0, crc := 0 })
+  let magic := Spec.Wal.pageMagics.getD (idx / 256 % 5) 0xD113
+  let s := { mkSeg [] ((List.range 256).map fun info => { plainRec 24 rmid info 0 with prev := 0, crc := 0 }) with magic }
   let file := Spec.Wal.encSegment s
-  let spec := joinWith "," ((List.range 256).map fun info => s!"{rmid}.{info}={specRmName rmid}/{specOpName rmid info}")
-  let named := (List.range 256).any fun info => (Spec.Wal.pgOpName pgVer rmid info).isSome
-  { tags := (if rmid == 4 then ["kf:C17-dbase-ops"] else []) ++ (if named then ["nt", "rm=pg"] else ["nt", "rm=other"]),
+  let spec := joinWith "," ((List.range 256).map fun info => s!"{rmid}.{info}={specRmName rmid}/{specOpName magic rmid info}")
+  let named := (List.range 256).any fun info => (Spec.Wal.pgOpName (verOf magic) rmid info).isSome
+  { tags := (if rmid == 11 then ["kf:C17-btree-rmname"] else []) ++ [s!"pg={verOf magic}"] ++
+            (if named then ["nt", "rm=pg"] else ["nt", "rm=other"]),
     model := showM showNamesM (Model.Wal.parseWALFile file), spec, args := [hexRle file] }
 
-def walnames : Family := { name := "walnames", gen := walnamesGen, eval := walnamesEval, fixed := 256 }
+def walnames : Family := { name := "walnames", gen := walnamesGen, eval := walnamesEval, fixed := 1280 }
 
 /-! ### waldir -/
 
@@ -248,13 +298,17 @@ def fmtLSN (lsn : Nat) : String := Model.Wal.hexUpper (lsn / 2 ^ 32) ++ "/" ++ M
 def sortNat (xs : List (Nat × String × Nat)) : List (Nat × String × Nat) :=
   (xs.toArray.qsort fun a b => a.1 < b.1).toList
 
-/-- the expected summary: tallies (Spec.Wal.tally) over the views of the segment files in name order;
-`version` is outside the property (magic → version is not part of the statement): the model's value is repeated -/
-def showSummaryS (segs : List Spec.Wal.WalSegment) (version : String) : String :=
-  let infos : List Spec.Wal.RecInfo := segs.flatMap fun s => s.view.map fun v =>
-    { lsn := v.lsn, xid := v.xid, op := specOpName v.rmid v.info, status := Spec.Wal.xactStatus v.rmid v.info,
-      tables := Spec.Wal.tablesOf v.blocks }
+/-- the expected summary: tallies (Spec.Wal.tally) over the views of the segment files in name order, each commit /
+abort verdict credited to the transactions PostgreSQL's record decides (`Spec.Wal.decidedXids`); `version` = the
+PostgreSQL version of the first segment's page magic (`Spec.Wal.versionOfMagic`) -/
+def showSummaryS (segs : List Spec.Wal.WalSegment) : String :=
+  let infos : List Spec.Wal.RecInfo := segs.flatMap fun s => (s.records.zip s.view).map fun (r, v) =>
+    { lsn := v.lsn, xid := v.xid, op := specOpName s.magic v.rmid v.info, status := Spec.Wal.xactStatus v.rmid v.info,
+      decided := Spec.Wal.decidedXids r, tables := Spec.Wal.tablesOf v.blocks }
   let t := Spec.Wal.tally infos
+  let version := match segs.head? with
+    | some s => (match Spec.Wal.versionOfMagic s.magic with | some v => toString v | none => "unknown")
+    | none => ""
   (GoVal.obj [
     (strBytes "segments", natVal segs.length), (strBytes "records", natVal t.records),
     (strBytes "first", strVal (fmtLSN t.firstLSN)), (strBytes "last", strVal (fmtLSN t.lastLSN)),
@@ -276,10 +330,61 @@ def waldirEval (args : List String) : String :=
   | _ => "bad-args"
 
 structure DirCase where
-  segs : List Spec.Wal.WalSegment      -- in name order
+  segs : List Spec.Wal.WalSegment      -- the segments, in name order: what the directory holds
   files : List (String × Bytes)        -- everything in the directory, shuffled
   limit : Nat
   negative : Bool := false             -- pass `-limit - 1` instead: "at most a negative number of records" = none (fixes/entry/01)
+  xseg : Bool := false                 -- the first segment file ends inside a record which the second file continues
+
+def segFile (s : Spec.Wal.WalSegment) : String × Bytes :=
+  (Gen.Wal.segFileName s.tli s.startAddr s.segSize, Spec.Wal.encSegment s)
+
+open Spec.Wal in
+/-- Cut segment `a` after its first `m` pages, inside the record that crosses that boundary: the segment file is those `m`
+pages (a full segment of `m` pages), and the NEXT segment starts with the rest of the record as continuation data,
+followed by the records `next`.  `none` when no record of `a` crosses the end of page `m − 1` or `m = 0`.
+Result: (the first segment as PostgreSQL sees it — its last record complete —, its file, the second segment). -/
+def splitAfter (a : WalSegment) (m : Nat) (next : List WalRecord) (k : Nat) : Option (WalSegment × Bytes × WalSegment) :=
+  let cut := pageStart m
+  let ro := a.records.zip a.offsets
+  match (ro.filter fun x => x.2 < cut).getLast? with
+  | none => none
+  | some (r, o) =>
+    if m == 0 || o + r.totLen ≤ cut then none
+    else
+      let segSize := 8192 * m
+      let a' : WalSegment := { a with segSize, startAddr := k * segSize, tailPages := 0,
+                                      records := (ro.filter fun x => x.2 < cut).map (·.1) }
+      let b : WalSegment := { a' with startAddr := a'.startAddr + segSize, pre := (encRecord r).drop (cut - o), records := next }
+      some (a', (encSegment a').take (8192 * m), b)
+
+/-- deterministic directories: a record (with a block reference) cut by the end of the first segment file after 48 bytes /
+after 16 bytes of its header (open finding C17-cross-segment-record); a prepared transaction committed from a backend
+without xid, and a transaction with a committed subtransaction (open finding C17-prepared-xid); 24-character names that
+are not segment names beside one segment (former finding C17-segment-names, fixes/wal/10); one segment of each
+PostgreSQL version 12, 13, 14 (former finding C17-page-magics, fixes/wal/06) -/
+def fixedDirs : List DirCase :=
+  let heapIns := (boundarySegs.getD 2 default).records.head!
+  let commit := plainRec 34 1 0x00 700
+  let xs (first : Nat) : List DirCase :=
+    match splitAfter (mkSeg (zeros first) [heapIns, commit]) 1 [plainRec 40 10 0x10 700, commit] 5 with
+    | some (a, fileA, b) =>
+      [{ segs := [a, b], files := [(Gen.Wal.segFileName a.tli a.startAddr a.segSize, fileA), segFile b], limit := 10, xseg := true }]
+    | none => []
+  let xact (op hdr : Nat) (x : Spec.Wal.XactEnd) : Spec.Wal.WalRecord :=
+    { plainRec 24 1 (op + (if x.xinfo == 0 then 0 else 0x80)) hdr with mainData := Spec.Wal.encXactEnd x }
+  let one (s : Spec.Wal.WalSegment) (junk : List String := []) : DirCase :=
+    { segs := [s], files := segFile s :: junk.map fun n => (n, Spec.Wal.encSegment s), limit := 3 }
+  xs 8100 ++ xs 8136 ++
+  [ one (mkSeg [] [plainRec 40 10 0x00 700, xact 0x10 700 ⟨7, [], none⟩, xact 0x30 0 ⟨8, [], some 700⟩,
+                   plainRec 40 10 0x00 701, xact 0x10 701 ⟨7, [], none⟩, xact 0x40 0 ⟨9, [], some 701⟩]),
+    one (mkSeg [] [plainRec 40 10 0x00 702, plainRec 40 10 0x00 703, xact 0x00 702 ⟨7, [703], none⟩,
+                   plainRec 40 10 0x00 704, plainRec 40 10 0x00 700, xact 0x20 704 ⟨7, [700, 705], none⟩]),
+    one (mkSeg [] [heapIns, commit]) ["backup_of_segment_000001", "0000000200000000.history", "00000001000000000000000a",
+                                        "00000001000000000000000G"],
+    one { mkSeg [] [heapIns, plainRec 40 9 0x10 700, commit] with magic := 0xD101 },
+    one { mkSeg [] [heapIns, plainRec 40 9 0x10 700, commit] with magic := 0xD106 },
+    one { mkSeg [] [heapIns, plainRec 40 9 0x10 700, commit] with magic := 0xD10D } ]
 
 def genDir (size : Nat) : Gen DirCase := do
   let nseg ← Gen.range 1 4
@@ -287,18 +392,35 @@ def genDir (size : Nat) : Gen DirCase := do
   let tli ← Gen.oneOf [1, 1, 3]
   let segno0 ← Gen.oneOf [0, 1, 2, 255, 256, 1000]
   let kf ← Gen.prob 1 4
+  -- one PostgreSQL version per directory
+  let magic ← Gen.oneOf Spec.Wal.pageMagics
   let mut segs : Array Spec.Wal.WalSegment := #[]
   for i in [0:nseg] do
-    let s ← Gen.Wal.genSegment (max size 1) kf
+    let s ← Gen.Wal.genSegmentM magic (max size 1) kf
     segs := segs.push { s with tli, segSize, startAddr := (segno0 + i) * segSize }
   let njunk ← Gen.below 4
   let junk ← Gen.listOf njunk (Gen.oneOf Gen.Wal.junkNames)
   let junk := Spec.Wal.dedup junk
-  let segFiles := segs.toList.map fun s => (Gen.Wal.segFileName s.tli s.startAddr s.segSize, Spec.Wal.encSegment s)
+  -- with `kf`, sometimes: the first segment file ends inside a record and the second continues it
+  let mut segList := segs.toList
+  let mut segFiles := segList.map segFile
+  let mut xseg := false
+  if kf && nseg ≥ 2 && (← Gen.prob 1 2) then
+    let a := segs[0]!
+    let b := segs[1]!
+    -- the last page boundary of `a` that a record crosses
+    let ms := (List.range a.usedPages).reverse.filter (· ≥ 1)
+    match ms.findSome? fun m => splitAfter a m (b.records.take 40) (segno0 + 1) with
+    | some (a', fileA, b') =>
+      let b' := { b' with sysid := a.sysid }
+      segList := [a', b']
+      segFiles := [(Gen.Wal.segFileName a'.tli a'.startAddr a'.segSize, fileA), segFile b']
+      xseg := true
+    | none => pure ()
   -- junk files hold a valid segment image: only the name keeps them out
   let junkFiles := junk.map fun n => (n, (segFiles.head?.map (·.2)).getD [])
   let files ← Gen.shuffle (segFiles ++ junkFiles)
-  let total := (segs.toList.map (·.records.length)).sum
+  let total := (segList.map (·.records.length)).sum
   let limit ← match ← Gen.below 6 with
     | 0 => pure 0
     | 1 => pure 1
@@ -306,26 +428,31 @@ def genDir (size : Nat) : Gen DirCase := do
     | 3 => pure (total + 5)
     | _ => Gen.range 0 (total + 1)
   let negative ← Gen.prob 1 12
-  return { segs := segs.toList, files, limit, negative }
+  return { segs := segList, files, limit, negative, xseg }
 
 def takeLast (n : Nat) (xs : List α) : List α := xs.drop (xs.length - n)
 
 def waldirGen (seed idx size : Nat) : Case :=
-  let d := (genDir size).run' (Prng.ofSeed seed idx)
+  let d := if idx < fixedDirs.length then fixedDirs.getD idx { segs := [], files := [], limit := 0 }
+           else (genDir size).run' (Prng.ofSeed seed idx)
   let model := Model.Wal.scanWALDirectory d.files
   let limitArg : Int := if d.negative then -(d.limit : Int) - 1 else d.limit
   let recent := Model.Wal.getRecentWALRecords d.files limitArg
-  let version := match model with | .ok s => s.pgVersion | .error _ => ""
-  let allViews := d.segs.flatMap (·.view)
-  let spec := showSummaryS d.segs version ++ "|" ++ showRecsS (takeLast (if d.negative then 0 else d.limit) allViews)
-  let kf := Spec.Wal.dedup (d.segs.flatMap kfTags)
+  let allViews : List String := d.segs.flatMap fun s => s.view.map (showRecS s.magic)
+  let spec := showSummaryS d.segs ++ "|" ++ joinWith ";" (takeLast (if d.negative then 0 else d.limit) allViews)
+  let kf := Spec.Wal.dedup (d.segs.flatMap kfTags ++
+    (if d.segs.any hasDecidesOther then ["kf:C17-prepared-xid"] else []) ++
+    (if d.xseg then ["kf:C17-cross-segment-record"] else []))
+  let junk24 := (d.files.filter fun f => f.1.length == 24 && !Spec.Wal.isSegmentName f.1).length
   let tags := [s!"segs={d.segs.length}", s!"junk={d.files.length - d.segs.length}",
+               s!"pg={(d.segs.head?.map fun s => verOf s.magic).getD 0}",
                (if d.negative then "limit<0" else if d.limit == 0 then "limit=0" else if d.limit ≥ allViews.length then "limit>=all" else "limit<all")] ++
+              (if junk24 > 0 then ["junk24"] else []) ++
               kf ++ (if allViews.isEmpty then [] else ["nt"])
   { tags, model := showM showSummaryM model ++ "|" ++ showM showRecsM recent, spec,
     args := toString limitArg :: d.files.flatMap fun f => [hexOf (strBytes f.1), hexRle f.2] }
 
-def waldir : Family := { name := "waldir", gen := waldirGen, eval := waldirEval, fixed := 0 }
+def waldir : Family := { name := "waldir", gen := waldirGen, eval := waldirEval, fixed := fixedDirs.length }
 
 /-! ### corrupted segments: walraw (correspondence, C17) and walmut (robustness, C10) -/
 
@@ -344,6 +471,11 @@ def mutSegment (seed idx size : Nat) : Bytes :=
     let extra := (offs.take 6).flatMap fun o => [(o, 4), (o + 24, 1), (o + 25, 1), (o + 26, 2), (o + 28, 2), (o + 32, 1)]
     Gen.mutate (walFields ++ extra) 3 file
   g.run' (Prng.ofSeed seed idx)
+
+/-- a segment image holding a heap record of total length `n` (continued over as many pages as it takes) between two
+small records; `n` may exceed the 16000 bytes of `WalRecord.WF` (the encoder does not care) -/
+def bigRecordFile (n : Nat) : Bytes :=
+  Spec.Wal.encSegment (mkSeg [] [plainRec 40 10 0x00 700, plainRec n 10 0x20 700, plainRec 40 1 0x00 700])
 
 /-- deterministic corrupted pages: tot_len / rem_len / block header fields at their boundaries -/
 def fixedMut : List Bytes :=
@@ -364,6 +496,16 @@ def fixedMut : List Bytes :=
          Gen.setAt f 8208 (le 4 (rem + 1)), Gen.setAt f 8208 (le 4 (rem - 1)), Gen.setAt f 8208 (le 4 0),
          Gen.setAt f 8208 (le 4 (rem + 8)), Gen.setAt f 16386 (le 2 0), Gen.setAt f 16400 (le 4 1),
          Gen.setAt f 16400 (le 4 (2 ^ 32 - 1))])
+  -- page magics: PostgreSQL's five, the three constants the tool had before fixes/wal/06, 11 and 17, neighbours
+  ++ ([0xD101, 0xD106, 0xD10D, 0xD110, 0xD113, 0xD109, 0xD10F, 0xD098, 0xD116, 0xD100, 0xD102, 0xD10E, 0xD111, 0xD112, 0xD114].map
+        fun m => Gen.setAt base 0 (le 2 m))
+  -- the image header under either bimg_info assignment: every boundary segment with images, re-labelled with each magic
+  -- (hole_length then present/absent against the version's rule: the walk goes on from a shifted position)
+  ++ ([18, 19, 20, 21, 22].flatMap fun i =>
+        let f := Spec.Wal.encSegment (boundarySegs.getD i default)
+        [0xD101, 0xD10D, 0xD110, 0xD113].map fun m => Gen.setAt f 0 (le 2 m))
+  -- a record longer than 16384 bytes (outside the property's quantifier: 24..16000): the tool gives up on the page
+  ++ [bigRecordFile 16384, bigRecordFile 16385, bigRecordFile 16392, bigRecordFile 40000]
 
 def mutInput (seed idx size : Nat) : Bytes :=
   if idx < fixedMut.length then fixedMut.getD idx [] else mutSegment seed idx size
